@@ -68,7 +68,7 @@ class World:
         self.sched = None           # optional harness.sched.Scheduler: worker threads stop at each network operation
 
     def sched_point(self, op):
-        if self.sched is not None:
+        if self.sched is not None and getattr(self, 'sched_net', True):
             self.sched.point(op)
 
     def log(self, **ev):
